@@ -44,6 +44,10 @@ func (a *LabelFormatPlanner) Process(ctx *shared.PlannerContext,
 
 	return a.WrapProcess(ctx, in, GenericPlannerOps{
 		OnEntry: func(entry *shared.LogEntry) error {
+			if entry.Err != nil {
+				// marker entries (end of stream, upstream error) carry no label map
+				return nil
+			}
 			for _, fn := range labelFns {
 				entry.Labels = fn(entry.Labels)
 			}
